@@ -17,12 +17,14 @@ import (
 	"fmt"
 	"io"
 	"net/http"
-	"sort"
+	"reflect"
 	"runtime"
+	"sort"
 	"strings"
 	"sync"
 	"sync/atomic"
 	"testing"
+	"unsafe"
 
 	"github.com/megaease/easegress/pkg/context"
 	"github.com/megaease/easegress/pkg/filters"
@@ -264,6 +266,146 @@ func c04Choose(sp *ServerPool, req *httpprot.Request) (obs string) {
 	return c04ID(strings.TrimPrefix(svr.URL, "http://"))
 }
 
+// c04Held is a request between the two steps of doHandle's `sp.LoadBalancer().ChooseServer(req)`:
+// it has loaded the pool's balancer and will choose later.
+type c04Held struct {
+	lb  LoadBalancer
+	req *httpprot.Request
+}
+
+func c04Hold(sp *ServerPool, req *httpprot.Request) *c04Held {
+	return &c04Held{lb: sp.LoadBalancer(), req: req}
+}
+
+func (h *c04Held) choose() (obs string) {
+	defer func() {
+		if r := recover(); r != nil {
+			obs = "panic"
+		}
+	}()
+	svr := h.lb.ChooseServer(h.req)
+	if svr == nil {
+		return "nil"
+	}
+	return c04ID(strings.TrimPrefix(svr.URL, "http://"))
+}
+
+// c04CounterOf finds the selection counter of a balancer: the only integer (or sync/atomic integer)
+// field of its struct, whatever its name and width. ok is false when the balancer keeps no such
+// single counter (aging is then not applicable and not attempted).
+func c04CounterOf(lb LoadBalancer) (f reflect.Value, ok bool) {
+	v := reflect.ValueOf(lb)
+	if v.Kind() != reflect.Ptr || v.Elem().Kind() != reflect.Struct {
+		return f, false
+	}
+	v = v.Elem()
+	isInt := func(k reflect.Kind) bool {
+		switch k {
+		case reflect.Int, reflect.Int32, reflect.Int64, reflect.Uint, reflect.Uint32, reflect.Uint64, reflect.Uintptr,
+			reflect.Int8, reflect.Int16, reflect.Uint8, reflect.Uint16:
+			return true
+		}
+		return false
+	}
+	var cands []reflect.Value
+	for i := 0; i < v.NumField(); i++ {
+		ft := v.Type().Field(i)
+		if ft.Anonymous {
+			continue
+		}
+		fv := v.Field(i)
+		if isInt(fv.Kind()) {
+			cands = append(cands, fv)
+		} else if fv.Kind() == reflect.Struct && ft.Type.PkgPath() == "sync/atomic" {
+			if in := fv.FieldByName("v"); in.IsValid() && isInt(in.Kind()) {
+				cands = append(cands, in)
+			}
+		}
+	}
+	if len(cands) != 1 {
+		return f, false
+	}
+	c := cands[0]
+	return reflect.NewAt(c.Type(), unsafe.Pointer(c.UnsafeAddr())).Elem(), true
+}
+
+// c04Age puts a fresh round robin balancer into the state it has after k0 selections. It first makes
+// m real selections and checks that they advanced the balancer's counter field by exactly m: the
+// field then is a free-running count of the selections made (plus whatever it started from), and
+// advancing it by the remaining k0 - m, in the field's own width and arithmetic (which is what k0 - m
+// more increments do), gives the state after k0 selections (the m being the first of them). Returns
+// why = "" when done, "empty" when the balancer has no server (nothing is counted), "nocounter" when
+// the balancer keeps no such counter: it is then not aged, and the selections made on it meanwhile
+// (probes) are ordinary selections that the caller records as such.
+func c04Age(lb LoadBalancer, req *httpprot.Request, k0 uint64) (why string, probes []string) {
+	defer func() {
+		if r := recover(); r != nil {
+			why, probes = "nocounter", append(probes, "panic")
+		}
+	}()
+	f, ok := c04CounterOf(lb)
+	if !ok {
+		return "nocounter", nil
+	}
+	bits := uint(f.Type().Bits())
+	signed := false
+	switch f.Kind() {
+	case reflect.Int, reflect.Int8, reflect.Int16, reflect.Int32, reflect.Int64:
+		signed = true
+	}
+	get := func() uint64 {
+		if signed {
+			return uint64(f.Int()) << (64 - bits) >> (64 - bits)
+		}
+		return f.Uint()
+	}
+	v0 := get()
+	// once around the list and a little further (up to the first server chosen again, and one more), so
+	// that a counter kept modulo the number of servers is not mistaken for a free-running one
+	seen, last := map[string]bool{}, false
+	m := uint64(0)
+	for m < 64 {
+		svr := lb.ChooseServer(req)
+		if svr == nil {
+			if m == 0 {
+				return "empty", append(probes, "nil")
+			}
+			return "nocounter", append(probes, "nil")
+		}
+		id := c04ID(strings.TrimPrefix(svr.URL, "http://"))
+		probes = append(probes, id)
+		m++
+		if last {
+			break
+		}
+		last = seen[id]
+		seen[id] = true
+	}
+	if (get()-v0)<<(64-bits)>>(64-bits) != m || k0 < m {
+		return "nocounter", probes
+	}
+	sum := (get() + k0 - m) << (64 - bits) >> (64 - bits)
+	if signed {
+		f.SetInt(int64(sum<<(64-bits)) >> (64 - bits))
+	} else {
+		f.SetUint(sum)
+	}
+	return "", nil
+}
+
+// c04NotAged records why a balancer was not aged and the selections the attempt made on it.
+func c04NotAged(w *vx.Writer, why string, probes []string) {
+	w.Emit(vx.M{"ev": "noage", "why": why})
+	for _, r := range probes {
+		w.Emit(vx.M{"ev": "ch", "k": "k0", "r": r})
+	}
+}
+
+// c04K0 = 2^b - d
+func c04K0(b, d int) uint64 { return uint64(1)<<uint(b) - uint64(d) }
+
+var c04AgeBits = []int{8, 16, 31, 32, 33, 48, 62}
+
 func c04Repeat(policy string) int {
 	if policy == LoadBalancePolicyWeightedRandom || policy == LoadBalancePolicyRandom {
 		return 12 // chance to see a forbidden pick
@@ -291,12 +433,34 @@ func TestVerifC04Replay(t *testing.T) {
 		}
 		keys := c04NewKeys(rng)
 		w.Emit(vx.M{"ev": "reset", "cfg": cfg, "beh": bi})
+		held := map[string]*c04Held{}
 		for _, st := range beh[1:] {
 			switch vx.Str(st["a"]) {
 			case "rep":
 				insts := c04InstsOf(st["insts"])
 				p.mainPool.useService(c04Instances(insts))
 				w.Emit(vx.M{"ev": "rep", "insts": insts})
+			case "hold":
+				pn, k := vx.Str(st["p"]), vx.Str(st["k"])
+				held[pn] = c04Hold(p.mainPool, keys.request(k))
+				w.Emit(vx.M{"ev": "hold", "p": pn, "k": k})
+			case "hpick":
+				pn := vx.Str(st["p"])
+				if h := held[pn]; h != nil {
+					w.Emit(vx.M{"ev": "hpick", "p": pn, "r": h.choose()})
+					delete(held, pn)
+				}
+			case "age":
+				b, d := vx.Int(st["b"]), vx.Int(st["d"])
+				if why, probes := c04Age(p.mainPool.LoadBalancer(), keys.request("k0"), c04K0(b, d)); why != "" {
+					c04NotAged(w, why, probes)
+					continue
+				}
+				w.Emit(vx.M{"ev": "age", "b": b, "d": d, "k0": fmt.Sprint(c04K0(b, d))})
+				// the selections that follow those k0: past the power of two and once around the list
+				for i := 0; i < d+10; i++ {
+					w.Emit(vx.M{"ev": "ch", "k": "k0", "r": c04Handle(p, tr, keys.request("k0"))})
+				}
 			case "ch":
 				k := vx.Str(st["k"])
 				for i := 0; i < c04Repeat(cfg.Policy); i++ {
@@ -371,15 +535,52 @@ func TestVerifC04Trace(t *testing.T) {
 		}
 		keys := c04NewKeys(rng)
 		w.Emit(vx.M{"ev": "reset", "cfg": cfg})
+		// a round robin balancer that has served k0 = 2^b - d selections before (2 of 3 generations)
+		age := func() {
+			if cfg.Policy != "roundRobin" || rng.Intn(3) == 0 {
+				return
+			}
+			b, d := c04AgeBits[rng.Intn(len(c04AgeBits))], 1+rng.Intn(20)
+			if rng.Intn(4) == 0 {
+				b, d = 1+rng.Intn(62), 1 // any power of two
+			}
+			if why, probes := c04Age(p.mainPool.LoadBalancer(), keys.request("k0"), c04K0(b, d)); why != "" {
+				c04NotAged(w, why, probes)
+				return
+			}
+			w.Emit(vx.M{"ev": "age", "b": b, "d": d, "k0": fmt.Sprint(c04K0(b, d))})
+			for i := 0; i < d+16; i++ {
+				w.Emit(vx.M{"ev": "ch", "k": "k0", "r": c04Handle(p, tr, keys.request("k0"))})
+			}
+		}
+		age()
+		held := map[string]*c04Held{}
 		for s := 0; s < nSteps; s++ {
 			if cfg.Disc && rng.Intn(12) == 0 {
 				insts := c04RandInsts(rng)
 				p.mainPool.useService(c04Instances(insts))
 				w.Emit(vx.M{"ev": "rep", "insts": insts})
+				age()
 				continue
 			}
 			k := fmt.Sprintf("k%d", rng.Intn(4))
+			// requests held between the load of the balancer and the choice (up to 4 at a time)
+			if pn := fmt.Sprintf("g%d", rng.Intn(4)); rng.Intn(6) == 0 {
+				if h := held[pn]; h != nil {
+					w.Emit(vx.M{"ev": "hpick", "p": pn, "r": h.choose()})
+					delete(held, pn)
+				} else {
+					held[pn] = c04Hold(p.mainPool, keys.request(k))
+					w.Emit(vx.M{"ev": "hold", "p": pn, "k": k})
+				}
+				continue
+			}
 			w.Emit(vx.M{"ev": "ch", "k": k, "r": c04Handle(p, tr, keys.request(k))})
+		}
+		for g := 0; g < 4; g++ {
+			if h := held[fmt.Sprintf("g%d", g)]; h != nil {
+				w.Emit(vx.M{"ev": "hpick", "p": fmt.Sprintf("g%d", g), "r": h.choose()})
+			}
 		}
 		p.Close()
 	}
@@ -446,6 +647,7 @@ func TestVerifC04Conc(t *testing.T) {
 			repRound[rng.Intn(per)] = insts
 		}
 		arrived := make([]int64, per)
+		repDone := make([]int32, per)
 		need := make([]int64, per)
 		for r := 0; r < per; r++ {
 			need[r] = int64(G)
@@ -472,9 +674,24 @@ func TestVerifC04Conc(t *testing.T) {
 				for i := 0; i < per; i++ {
 					k := fmt.Sprintf("k%d", lr.Intn(3))
 					req := keys.request(k)
+					_, replacing := repRound[i]
+					hold := replacing && lr.Intn(3) == 0
 					inv := rec.add(vx.M{"ev": "inv", "p": pn, "k": k})
-					barrier(i)
-					r := c04Choose(sp, req)
+					var r string
+					if hold {
+						// the schedule load - replace - choose: the request loads the balancer, the watcher
+						// replaces the list completely, only then the request chooses
+						h := c04Hold(sp, req)
+						barrier(i)
+						for atomic.LoadInt32(&repDone[i]) == 0 {
+							runtime.Gosched()
+						}
+						r = h.choose()
+						inv["held"] = true
+					} else {
+						barrier(i)
+						r = c04Choose(sp, req)
+					}
 					rec.add(vx.M{"ev": "ret", "p": pn, "r": r})
 					inv["r"] = r // written to the file only after all goroutines have finished
 				}
@@ -492,6 +709,7 @@ func TestVerifC04Conc(t *testing.T) {
 				rec.add(vx.M{"ev": "rinv", "insts": insts})
 				barrier(r)
 				sp.useService(c04Instances(insts))
+				atomic.StoreInt32(&repDone[r], 1)
 				rec.add(vx.M{"ev": "rret"})
 			}
 		}()
@@ -536,6 +754,20 @@ func TestVerifC04Stress(t *testing.T) {
 				sp.useService(c04Instances(insts))
 				w.Emit(vx.M{"ev": "rep", "insts": insts})
 			}
+			// every other round robin burst runs on a balancer that has served 2^b - d selections before, so
+			// that the burst crosses the power of two. (Which servers had had the extra selection is not
+			// observable in a tally: the burst is then the last thing observed of its generation.)
+			aged := false
+			fresh, lastOfGen := b == 0 || cfg.Disc, cfg.Disc || b == bursts-1
+			if cfg.Policy == "roundRobin" && fresh && lastOfGen && rng.Intn(2) == 0 {
+				ab, ad := c04AgeBits[rng.Intn(len(c04AgeBits))], 1+rng.Intn(200)
+				if why, probes := c04Age(sp.LoadBalancer(), keys.request("k0"), c04K0(ab, ad)); why != "" {
+					c04NotAged(w, why, probes)
+				} else {
+					w.Emit(vx.M{"ev": "age", "b": ab, "d": ad, "k0": fmt.Sprint(c04K0(ab, ad))})
+					aged = true
+				}
+			}
 			const G = 8
 			n := 1 + rng.Intn(perG)
 			tallies := make([]map[[2]string]int, G)
@@ -578,7 +810,7 @@ func TestVerifC04Stress(t *testing.T) {
 			})
 			w.Emit(vx.M{"ev": "batch", "picks": picks, "n": n * G})
 			// the sequence must go on consistently after the burst
-			for i := 0; i < 3; i++ {
+			for i := 0; i < 3 && !aged; i++ {
 				k := fmt.Sprintf("k%d", rng.Intn(4))
 				w.Emit(vx.M{"ev": "ch", "k": k, "r": c04Handle(p, tr, keys.request(k))})
 			}
